@@ -452,6 +452,10 @@ func init() {
 					addEval(c, b, &EvalSpec{Tree: t, RC: rc, Bind: bd, Avail: av, DoEval: true, DoTry: true, Lazy: true, Tags: []string{"wide-operator"}})
 				}
 			}
+			// the library's own contexts (NewCtxFromVars): a variable registered after the context was built is unavailable to it
+			for k := 0; k < c.N(60, 2500); k++ {
+				libraryCtxCase(c, r)
+			}
 			return []*Batch{b}
 		}
 	}
@@ -622,5 +626,87 @@ func probeAgreement(c *RunCtx) {
 				Sig: "c04-nonbool-before-last-boolean-operand", Sample: src})
 			return
 		}
+	}
+}
+
+// libraryCtxCase: TryEval with the context the library builds itself (key-indexed or name-indexed fetcher) must answer
+// exactly as with the harness's truthful fetcher in which the variables registered after the context was built are
+// unavailable: DNE / the deciding operand, never an error and never a read of such a variable.
+func libraryCtxCase(c *RunCtx, r *Rand) {
+	vals := map[string]interface{}{}
+	for _, n := range boolVars {
+		vals[n] = r.Bool()
+	}
+	for _, n := range intVars {
+		vals[n] = int64(r.Intn(7)) - 2
+	}
+	undefined := r.Intn(4) == 0
+	opts := []eval.Option{eval.RegVarAndOp(vals)}
+	if r.Bool() {
+		opts = append(opts, eval.Optimizations(false))
+	}
+	conf := eval.NewConfig(opts...)
+	if undefined {
+		conf.CompileOptions[eval.AllowUndefinedVariable] = true
+	}
+	ctx := eval.NewCtxFromVars(conf, vals)
+	late := []string{"late0", "late1", "late2"}[:1+r.Intn(3)]
+	if !undefined {
+		for _, n := range late {
+			eval.GetOrRegisterKey(conf, n)
+		}
+	}
+	g := &Gen{r: r, c: GenCfg{MaxDepth: 1 + r.Intn(3), MaxWidth: 3, Ifs: r.Bool(), OnlyBoolOps: r.Intn(3) != 0}}
+	t := g.Bool(g.c.MaxDepth)
+	var walk func(x *GT)
+	walk = func(x *GT) {
+		for i, ch := range x.Ch {
+			if ch.Kind == "var" && strings.HasPrefix(ch.Name, "b") && r.Intn(3) == 0 {
+				x.Ch[i] = gvar(pick(r, late))
+			} else {
+				walk(ch)
+			}
+		}
+	}
+	walk(t)
+	if t.Kind != "op" && t.Kind != "if" {
+		t = gop(pick(r, andNames), t, gvar(pick(r, late)))
+	}
+	src := t.Src()
+	e, err, pan := compileSafe(conf, src)
+	c.ExploreEvals++
+	c.ExploreHist["library-ctx"]++
+	if err != nil || pan != nil || e == nil {
+		c.Notes = append(c.Notes, fmt.Sprintf("library-ctx: compile of %s: %v %v", src, err, pan))
+		return
+	}
+	ref := &RecFetcher{Vals: map[string]interface{}{}, Avail: map[string]bool{}, Rec: &Recorder{}}
+	for n, v := range vals {
+		ref.Vals[n], ref.Avail[n] = v, true
+	}
+	for _, n := range late {
+		ref.Vals[n], ref.Avail[n] = true, false
+	}
+	run := func(cx *eval.Ctx) (res string) {
+		guarded(map[string]interface{}{"call": "TryEval (library context)", "source": src}, func() {
+			defer func() {
+				if p := recover(); p != nil {
+					res = fmt.Sprintf("panic: %v", p)
+				}
+			}()
+			v, er := e.TryEval(cx)
+			if er != nil {
+				res = "error: " + er.Error()
+			} else {
+				res = fmt.Sprintf("%T %v", v, v)
+			}
+		})
+		return
+	}
+	got, want := run(ctx), run(&eval.Ctx{VariableFetcher: ref})
+	if got != want {
+		c.Direct = append(c.Direct, DirectViolation{What: "TryEval with the library's own context (variables registered after the context was built are unavailable to it) differs from TryEval with a truthful fetcher in which exactly those variables are unavailable",
+			Sig: "library-ctx", Sample: map[string]interface{}{"source": src, "values": fmt.Sprint(vals), "registered_after_context": late, "allow_undefined": undefined,
+				"fetcher": fmt.Sprintf("%T", ctx.VariableFetcher), "library_context": got, "truthful_fetcher": want}})
 	}
 }
